@@ -437,7 +437,9 @@ pub fn run_job(w: &World, j: &VJob) -> Option<(String, Value)> {
             let p2: Presentation = serde_json::from_value(doc.clone()).ok()?;
             // abstract what the library actually parsed
             let doc2 = serde_json::to_value(&p2).unwrap();
-            let out = vw::verify_legacy(&p2, &vreq, &bctx);
+            // where the verifier follows a caller-supplied map the call gets a time limit (a verification that does not
+            // return is reported like a crash)
+            let out = if j.ctx.ovr.is_some() { match vw::verify_with_limit(false, doc.clone(), &vreq, &bctx, 40) { "hang" => "panic", o => o } } else { vw::verify_legacy(&p2, &vreq, &bctx) };
             let base = base_req.map(|r| vw::verify_legacy(&p2, &r, &bctx) == "accept");
             if std::env::var("AVH_DEBUG_CLASS").map(|c| j.class.contains(&c)).unwrap_or(false) {
                 eprintln!("VDEBUG class={} muts={:?} impl={} base={:?} request={}", j.class, j.muts, out, base, serde_json::to_string(&vreq).unwrap_or_default());
@@ -457,7 +459,10 @@ pub fn run_job(w: &World, j: &VJob) -> Option<(String, Value)> {
             Some((body, json!({"format": "legacy", "class": j.class, "mutations": format!("{:?}", j.muts), "impl": out, "request": serde_json::to_value(&vreq).unwrap()})))
         }
         Fmt::W3C => {
-            let (mut p, mut provs, agg) = vw::make_w3c(w, &breq, &j.picks, j.holder)?;
+            let (mut p, mut provs, agg) = match &j.craft {
+                Some((subs, common, _)) => vw::craft_w3c(w, &breq, &j.picks, subs, *common)?,
+                None => vw::make_w3c(w, &breq, &j.picks, j.holder)?,
+            };
             for m in &j.muts {
                 apply_w3c(&mut p, &mut provs, m);
             }
@@ -485,7 +490,7 @@ pub fn run_job(w: &World, j: &VJob) -> Option<(String, Value)> {
             // a serde hop, so that the verifier sees what a remote verifier would see
             let pj = serde_json::to_value(&p).unwrap();
             let p2: W3CPresentation = serde_json::from_value(pj.clone()).ok()?;
-            let mut out = vw::verify_w3c(&p2, &vreq, &bctx);
+            let mut out = if j.ctx.ovr.is_some() { match vw::verify_with_limit(true, pj.clone(), &vreq, &bctx, 40) { "hang" => "panic", o => o } } else { vw::verify_w3c(&p2, &vreq, &bctx) };
             if collide {
                 for _ in 0..5 {
                     let p3: W3CPresentation = serde_json::from_value(pj.clone()).ok()?;
@@ -1013,7 +1018,12 @@ fn crafted_c05(w: &World) -> Vec<VJob> {
                 vw::CraftSub { cred: c1, link: l1, revealed: vec!["age".into()], preds: vec![] },
             ];
             let mut j = job(if l0 != l1 { "crafted:two-link-secrets" } else { "crafted:one-link-secret" }, Fmt::Legacy, &spec, &spec, vec![], w);
-            j.craft = Some((subs, common, rp));
+            j.craft = Some((subs.clone(), common, rp));
+            jobs.push(j);
+            // the same joint proof inside a W3C presentation
+            let mut j = job(if l0 != l1 { "crafted-w3c:two-link-secrets" } else { "crafted-w3c:one-link-secret" }, Fmt::W3C, &spec, &spec,
+                            vec![pick(c0, &[("a_name", true)], &["p_h"], None), pick(c1, &[("a_age", true)], &[], None)], w);
+            j.craft = Some((subs, common, json!({})));
             jobs.push(j);
         }
     }
@@ -1042,7 +1052,8 @@ fn c02_jobs(r: &mut Rng, w: &World, thorough: bool) -> Vec<VJob> {
             let build = ReqSpec::new(NONCE).attr("a_name", "name").attr("a_sex", "sex");
             let verify = if iv_on == "second" { build.clone().local("a_sex", iv).local("a_name", (None, Some(350))) } else { build.clone().global(iv) };
             for ts in [300u64, 200] {
-                let mut j = job("two-credentials-one-registry:stale-state-newer-timestamp", fmt, &build, &verify, vec![pick(8, &[("a_name", true)], &[], Some(0)), pick(1, &[("a_sex", true)], &[], Some(0))], w);
+                // (built for the request with its intervals, so that both sub-proofs carry a non-revocation part)
+                let mut j = job("two-credentials-one-registry:stale-state-newer-timestamp", fmt, &verify, &verify, vec![pick(8, &[("a_name", true)], &[], Some(0)), pick(1, &[("a_sex", true)], &[], Some(0))], w);
                 j.muts = if fmt == Fmt::Legacy { vec![Mut::IdentSet(1, "timestamp", json!(ts))] } else { vec![Mut::WIdent(1, "timestamp", json!(ts))] };
                 j.base = Base::StripIntervals;
                 jobs.push(j);
@@ -1186,6 +1197,15 @@ fn c08_jobs(_r: &mut Rng, w: &World, thorough: bool) -> Vec<VJob> {
                                 k.class = "intervals:override".into();
                                 k.ctx.ovr = Some(vec![(vw::REG_ID.to_string(), vec![(from, to)]), ("other:reg".to_string(), vec![(100, 1)])]);
                                 jobs.push(k);
+                            }
+                            // maps that lead back to where they started: an override is applied ONCE
+                            if (gi + li) % 9 == 0 && pi == 0 {
+                            for m in [vec![(100u64, 100u64)], vec![(100, 50), (50, 100)], vec![(101, 199), (199, 101)], vec![(200, 100), (100, 200)], vec![(199, 199), (101, 101), (100, 100), (200, 200)]] {
+                                let mut k = j.clone();
+                                k.class = "intervals:override-cyclic".into();
+                                k.ctx.ovr = Some(vec![(vw::REG_ID.to_string(), m)]);
+                                jobs.push(k);
+                            }
                             }
                         }
                     }
@@ -1439,6 +1459,17 @@ fn c12_jobs(r: &mut Rng, w: &World, thorough: bool) -> Vec<VJob> {
     j.verify = s.1.clone().restr("p_age", json!({"schema_name": "gvt"}));
     j.muts = vec![Mut::AddSelf("a_name".into(), "x".into())];
     jobs.push(j);
+    // override maps the verifier application supplies, including maps that lead back to where they started (the call is
+    // given a time limit: not returning counts like a crash)
+    for fmt in [Fmt::Legacy, Fmt::W3C] {
+        for m in [vec![(80u64, 80u64)], vec![(80, 50), (50, 80)], vec![(80, 250), (250, 80)], vec![(80, 70), (70, 60), (60, 80)], vec![(80, 10)]] {
+            for s in shapes().iter().filter(|s| s.0 == "revocable-global") {
+                let mut j = with_shape("targeted:override-map", fmt, w, s);
+                j.ctx.ovr = Some(vec![(vw::REG_ID.to_string(), m.clone())]);
+                jobs.push(j);
+            }
+        }
+    }
     // an honest but unusual combination: one credential serves a restricted predicate and an unrevealed group / unrevealed
     // single attribute (the restriction stage gathers the values revealed by that credential)
     for fmt in [Fmt::Legacy, Fmt::W3C] {
